@@ -84,7 +84,7 @@ def run(tier, seed):
     from .. import frame
     ok, sites, failing = frame.rule_update_registrations()
     chk.add_rule("C14.S.bcast_registered", ok, sites, failing)
-    res = _corpus_run.run_corpus(seed + 14, tier, fams=["upd", "upd", "upd", "get_at"], chunks=(30 if tier == "quick" else 300))
+    res = _corpus_run.run_corpus(seed + 14, tier, fams=["upd", "upd", "upd", "get_at"], chunks=(30 if tier == "quick" else 1500))
     res += fixed_cases()
     add_corpus(chk, res, "set_at/add_at/subtract_at (and get_at) vs an explicit loop over all index combinations", "update templates: <=4 target axes, 1-2 bracketed, vectorised axes missing/extra, duplicate coordinates, 2 backends; plus hand-written seeds (repeated bracket names, permuted update axes of equal length, broadcast updates)")
     chk.assumptions += ["set_at with duplicate coordinates: any competing value accepted", "only numpy backends"]
